@@ -28,6 +28,10 @@ RULE = (
     "sheets vs every holder / (holder, exchange) with a positive final balance from the input's balance model; per asset "
     "sum of unrealized cost vs lots' cost-with-fee x (1 - consumed/amount) from the trace decoded from the same run's full "
     "report; realized (detail table) + unrealized = cost of everything acquired; per-unit cost; weights sum to 1. "
+    "Every fourth case is a cross-report case: a to-date that cuts between transactions whose own-date order is the reverse "
+    "of their instant order (which rows such a cut keeps is KF1 of C10); there the reports of the run are only reconciled with "
+    "each other: unrealized cost + cost basis of the detail rows = cost of the lots listed in the In-Flow table, open-position "
+    "balances = positive final balances of the Account Balances table, unit cost, weights. "
     "Non-trivial = >= 2 holder rows and a partially consumed lot; distinct = hash of the case"
 )
 ASSUMPTIONS = [
@@ -36,8 +40,8 @@ ASSUMPTIONS = [
     "numbers are compared at 1e-9 relative (cells are doubles, sums of doubles)",
 ]
 SETTINGS: Dict[str, Dict[str, Any]] = {
-    "quick": {"cases": 128, "budget_s": 60, "minimums": {"rows_checked": 600, "conservation_checks": 150, "nontrivial": 40}},
-    "thorough": {"cases": 1000, "budget_s": 420, "minimums": {"rows_checked": 5000, "conservation_checks": 1200, "nontrivial": 400}},
+    "quick": {"cases": 160, "budget_s": 60, "minimums": {"rows_checked": 600, "conservation_checks": 150, "nontrivial": 40, "cross_report_assets": 30}},
+    "thorough": {"cases": 1200, "budget_s": 420, "minimums": {"rows_checked": 5000, "conservation_checks": 1200, "nontrivial": 400, "cross_report_assets": 250}},
 }
 REL = Fraction(1, 10**9)
 
@@ -177,6 +181,108 @@ def _one(ctx: Any, case: Dict[str, Any], name: str) -> None:
         ws.cleanup()
 
 
+def make_cross_case(rng: random.Random, index: int) -> Dict[str, Any]:
+    """To-date cut between transactions whose own-date order is the reverse of their instant order (mixed UTC offsets around a
+    day / year boundary). Which rows such a cut keeps is KF1's subject (C10); whatever view the run takes, its reports must
+    agree with each other, and that is what this mode checks."""
+    from rpv import families
+
+    hists: Dict[str, Any] = {}
+    boundary = None
+    for n, asset in enumerate(("AAA", "BBB")[: rng.choice((1, 2))]):
+        for _ in range(20):
+            hist, info = families.inverted_dates(rng, asset, kinds=("OUT", "OUT", "OUT", "INTRA", "IN"), at_new_year=rng.random() < 0.6)
+            if info["inverted_kinds"] and Model(hist).overspend_instant() is None:
+                break
+        hists[asset] = hist
+        if boundary is None:
+            boundary = info["boundary"]
+    country = rng.choice(("us", "us", "generic", "ie"))
+    to_d = date.fromisoformat(boundary)
+    from datetime import timedelta
+
+    return {"mode": "cross-report", "hists": hists, "country": country, "language": rng.choice(COUNTRY_LANGUAGES[country]), "method": rng.choice(COUNTRY_METHODS[country]), "to": (to_d + timedelta(days=rng.choice((0, 0, 0, 1, -1)))).isoformat()}
+
+
+def _one_cross(ctx: Any, case: Dict[str, Any], name: str) -> None:
+    """Report-to-report consistency of one run: unrealized cost (open positions) + realized cost (Gain / Loss Detail) = cost of
+    the lots listed in the In-Flow table; balances of the open-positions sheets = positive final balances of the Account
+    Balances table; unit cost = unrealized / balance; weights sum to 1."""
+    ws = Workspace(ctx.scratch, name)
+    try:
+        hists = copy.deepcopy(case["hists"])
+        ws.write(hists)
+        args = ["-m", case["method"], "-g", case["language"], "-t", case["to"]]
+        res = ws.run(case["country"], args, audit=False)
+        ctx.count("executions")
+        ctx.count("valid_cases")
+        if res.exit != 0:
+            crash = generator_crash(res.stderr, "open_positions.py")
+            if crash:
+                ctx.violation("openpositions.generator-crashed", {"error": crash}, case)
+                return
+            ctx.count("unobservable")
+            ctx.tag("tag_unobservable", f"cli exit {res.exit}: {res.stderr.strip().splitlines()[-1][:140] if res.stderr.strip() else ''}")
+            return
+        op_path, full_path = res.report("open_positions"), res.report("rp2_full_report")
+        if not op_path or not full_path:
+            ctx.violation("openpositions.file-missing", {"files": res.files}, case)
+            return
+        op = open_positions(op_path, case["language"])
+        report = FullReport(full_path, case["language"])
+        violations: List[Tuple[str, Dict[str, Any]]] = []
+        for asset in hists:
+            rows = [r for r in op["asset"] if r["asset"] == asset]
+            acquired = sum((num(r["fin_wf"]) or Fraction(0) for r in report.in_rows(asset)), Fraction(0))
+            realized = sum((num(d["cost"]) or Fraction(0) for d in report.detail_rows(asset)), Fraction(0))
+            lines, _ = report.balances(asset)
+            holders: Dict[str, Fraction] = {}
+            accounts: Dict[Tuple[str, str], Fraction] = {}
+            for line in lines:
+                final = snap(line["final"]) or Fraction(0)
+                if final > 0:
+                    holders[line["ho"]] = holders.get(line["ho"], Fraction(0)) + final
+                    accounts[(line["ho"], line["ex"])] = final
+            if not rows:
+                # not listed: nothing unsold (at RP2's resolution) or nobody holds a positive balance
+                if holders and acquired - realized > Fraction(1, 10**9) * max(acquired, 1):
+                    violations.append(("openpositions.cross.asset-with-unsold-cost-and-holders-not-listed", {"asset": asset, "acquired_in_flow_table": float(acquired), "realized_in_detail_table": float(realized)}))
+                continue
+            ctx.count("cross_report_assets")
+            unrealized = sum((num(r["cost"]) or Fraction(0) for r in rows), Fraction(0))
+            if not _close(realized + unrealized, acquired):
+                violations.append(("openpositions.cross.realized-plus-unrealized-vs-in-flow-table", {"asset": asset, "realized_in_detail_table": float(realized), "unrealized": float(unrealized), "cost_of_lots_in_in_flow_table": float(acquired)}))
+            if sorted(r["holder"] for r in rows) != sorted(holders):
+                violations.append(("openpositions.cross.holder-rows-vs-balance-table", {"asset": asset, "shown": sorted(r["holder"] for r in rows), "balance_table": sorted(holders)}))
+                continue
+            total_balance = sum(holders.values(), Fraction(0))
+            for r in rows:
+                ctx.count("rows_checked")
+                if snap(r["balance"]) != holders[r["holder"]]:
+                    violations.append(("openpositions.cross.holder-balance-vs-balance-table", {"asset": asset, "holder": r["holder"], "shown": str(r["balance"]), "balance_table": str(holders[r["holder"]])}))
+                if not _close(r["unit_cost"], unrealized / total_balance):
+                    violations.append(("openpositions.cross.unit-cost", {"asset": asset, "shown": str(r["unit_cost"]), "expected": float(unrealized / total_balance)}))
+            xrows = [r for r in op["asset_exchange"] if r["asset"] == asset]
+            if sorted((r["holder"], r["exchange"]) for r in xrows) != sorted(accounts):
+                violations.append(("openpositions.cross.exchange-rows-vs-balance-table", {"asset": asset, "shown": sorted([r["holder"], r["exchange"]] for r in xrows), "balance_table": sorted(list(a) for a in accounts)}))
+            else:
+                for r in xrows:
+                    ctx.count("rows_checked")
+                    if snap(r["balance"]) != accounts[(r["holder"], r["exchange"])]:
+                        violations.append(("openpositions.cross.exchange-balance-vs-balance-table", {"asset": asset, "account": [r["holder"], r["exchange"]], "shown": str(r["balance"])}))
+        for sheet_rows, label in ((op["asset"], "Asset"), (op["asset_exchange"], "Asset - Exchange")):
+            if sheet_rows:
+                total_weight = sum((num(r["weight"]) or Fraction(0) for r in sheet_rows), Fraction(0))
+                if abs(total_weight - 1) > REL:
+                    violations.append(("openpositions.weights-do-not-sum-to-one", {"sheet": label, "sum": float(total_weight)}))
+        ctx.count("cross_report_runs")
+        ctx.tag("tag_country", case["country"])
+        for rule, detail in violations[:6]:
+            ctx.violation(rule, detail, case)
+    finally:
+        ws.cleanup()
+
+
 def run_shard(ctx: Any) -> None:
     settings = SETTINGS[ctx.tier]
     share = ctx.share(settings["cases"])
@@ -184,10 +290,16 @@ def run_shard(ctx: Any) -> None:
         if ctx.expired():
             break
         index = ctx.shard + i * ctx.nshards
-        _one(ctx, make_case(ctx.rng("case", index), index), f"c15-{index}")
+        if index % 4 == 3:
+            _one_cross(ctx, make_cross_case(ctx.rng("cross", index), index), f"c15-{index}")
+        else:
+            _one(ctx, make_case(ctx.rng("case", index), index), f"c15-{index}")
 
 
 def replay(ctx: Any, case: Dict[str, Any]) -> None:
+    if case.get("mode") == "cross-report":
+        _one_cross(ctx, case, "replay")
+        return
     _one(ctx, case, "replay")
 
 
@@ -196,6 +308,6 @@ def coverage(merged: Dict[str, Any], tier: str) -> Dict[str, Any]:
     return {
         "evaluations": c.get("executions", 0),
         "distinct_nontrivial": len(merged["sets"].get("nontrivial", ())),
-        "events_checked": {"rows": c.get("rows_checked", 0), "per_asset_conservation_checks": c.get("conservation_checks", 0), "cases_with_a_fully_sold_or_unlisted_asset": c.get("cases_with_an_unlisted_asset", 0)},
+        "events_checked": {"rows": c.get("rows_checked", 0), "per_asset_conservation_checks": c.get("conservation_checks", 0), "cross_report_runs_with_inverted_to_date_cut": c.get("cross_report_runs", 0), "cross_report_assets_reconciled": c.get("cross_report_assets", 0), "cases_with_a_fully_sold_or_unlisted_asset": c.get("cases_with_an_unlisted_asset", 0)},
         "countries_seen": sorted(merged["sets"].get("tag_country", ())),
     }
